@@ -54,6 +54,22 @@ def parse_traces(out: str) -> List[List[Dict[str, Any]]]:
     return traces
 
 
+SCRIPTS_RE = re.compile(r'^<<"SCRIPTS", (".*")>>$', re.M)
+
+
+def dead_scripts(out: str, traces: List[List[Dict[str, Any]]]) -> Tuple[int, List[Any]]:
+    """(number of scripts of the run, scripts that no exported behaviour completed).  A script that the
+    specification cannot follow would otherwise silently drop out of the cover."""
+    m = SCRIPTS_RE.search(out)
+    if not m:
+        raise TLCError("the run did not print its scripts")
+    scripts = json.loads(json.loads(m.group(1)))
+    done = {json.dumps(b[0].get("sc", []), sort_keys=True) for b in traces}
+    for m2 in re.finditer(r'^<<"SCRIPTDONE", (".*")>>$', out, re.M):
+        done.add(json.dumps(json.loads(json.loads(m2.group(1))), sort_keys=True))
+    return len(scripts), [s for s in scripts if s and json.dumps(s, sort_keys=True) not in done]
+
+
 STATS_RE = re.compile(r"(\d+) states generated, (\d+) distinct states found")
 
 
